@@ -23,7 +23,7 @@ def add_list_type():
     pass
 
 
-def verify_functions(keys, *, prop=None, repo='/repo', scope=None, timeout_ms=10000, default_scope=3, R=None):
+def verify_functions(keys, *, prop=None, repo='/repo', scope=None, timeout_ms=10000, default_scope=3, R=None, interrupts=None):
     """-> dict(functions=[...], obligations={name: record}, unsupported={fkey: reason}, stats)"""
     R = R or registry()
     index = SourceIndex(repo)
@@ -35,12 +35,14 @@ def verify_functions(keys, *, prop=None, repo='/repo', scope=None, timeout_ms=10
             # ---- pass 1: finite scope
             ctx_f = Ctx(True, scope=dict(R.scope, **(scope or {})), enums=dict(R.enums), default_scope=default_scope)
             e1 = Exec(R, ctx_f, index, prop=prop, timeout_ms=timeout_ms)
+            e1.interrupt_budget = dict(interrupts or {})
             install_axioms(e1)
             info = e1.verify_function(fkey)
             rec.update(info)
             # ---- pass 2: unbounded, invariants fixed to the finite-scope survivors
             ctx_u = Ctx(False, enums=dict(R.enums))
             e2 = Exec(R, ctx_u, index, prop=prop, timeout_ms=timeout_ms, houdini=dict(e1.houdini))
+            e2.interrupt_budget = dict(interrupts or {})
             install_axioms(e2, out.setdefault('lemmas', {}))
             e2.skip_names = {n for n, ob in e1.obligations.items() if ob.status == 'refuted'}
             e2.verify_function(fkey)
@@ -63,6 +65,9 @@ def verify_functions(keys, *, prop=None, repo='/repo', scope=None, timeout_ms=10
             # must-fail canary: `False` at the function's exits must NOT be provable on at least one exit
             rec['canary'] = 'discharged' if (e1.canary and all(x == 'discharged' for x in e1.canary)) or not e1.canary else 'refuted'
             rec['exits'] = len(e1.canary)
+            if e1.ki_points_seen:
+                rec['interrupt_points'] = sorted(map(str, e1.ki_points_seen))
+                rec['handler_entry_invariants'] = e1.handler_entry_invs.get(fkey, [])
             for k, v in e1.trusted_uses.items():
                 out['trusted_uses'][k] = out['trusted_uses'].get(k, 0) + v
             out['solver_time'] += e1.solver_time + e2.solver_time
